@@ -85,7 +85,9 @@ func (x *Exec) runFrom(st *State, b *ssa.BasicBlock, idx int, prev *ssa.BasicBlo
 				sts := x.runDefers(st)
 				var outs []Outcome
 				for _, s := range sts {
-					if s.panicked {
+					if s.exited {
+						outs = append(outs, x.exitOutcome(s.st))
+					} else if s.panicked {
 						outs = append(outs, x.unwind(s.st)...)
 					} else {
 						outs = append(outs, x.runFrom(s.st, b, i+1, prev)...)
@@ -104,14 +106,16 @@ func (x *Exec) runFrom(st *State, b *ssa.BasicBlock, idx int, prev *ssa.BasicBlo
 				f.defers = append(f.defers, Deferred{Fn: fv, Args: as})
 			case *ssa.Call:
 				outs := x.doCall(st, in.Common(), in.Pos())
-				if len(outs) == 1 && !outs[0].panicked {
+				if len(outs) == 1 && !outs[0].panicked && !outs[0].exited {
 					st = outs[0].st
 					x.setReg(st, in, resultVal(outs[0].results))
 					continue
 				}
 				var res []Outcome
 				for _, o := range outs {
-					if o.panicked {
+					if o.exited {
+						res = append(res, x.exitOutcome(o.st))
+					} else if o.panicked {
 						res = append(res, x.unwind(o.st)...)
 					} else {
 						x.setReg(o.st, in, resultVal(o.results))
@@ -171,20 +175,30 @@ func (x *Exec) finishReturn(st *State, rs []Val) []Outcome {
 type deferOut struct {
 	st       *State
 	panicked bool
+	exited   bool
+}
+
+// exitOutcome: the process exits; no deferred call runs, the current frame is abandoned
+func (x *Exec) exitOutcome(st *State) Outcome {
+	st.frames = st.frames[:len(st.frames)-1]
+	x.npaths++
+	return Outcome{st: st, exited: true}
 }
 
 // runDefers runs the deferred calls of the top frame (normal flow)
 func (x *Exec) runDefers(st *State) []deferOut {
 	f := st.top()
 	if len(f.defers) == 0 {
-		return []deferOut{{st, false}}
+		return []deferOut{{st: st}}
 	}
 	d := f.defers[len(f.defers)-1]
 	f.defers = f.defers[:len(f.defers)-1]
 	var res []deferOut
 	for _, o := range x.callVal(st, d.Fn, d.Args, nil, token.NoPos) {
-		if o.panicked {
-			res = append(res, deferOut{o.st, true})
+		if o.exited {
+			res = append(res, deferOut{o.st, false, true})
+		} else if o.panicked {
+			res = append(res, deferOut{o.st, true, false})
 		} else {
 			res = append(res, x.runDefers(o.st)...)
 		}
@@ -202,9 +216,17 @@ func (x *Exec) unwind(st *State) []Outcome {
 		var res []Outcome
 		for _, o := range x.callVal(st, d.Fn, d.Args, nil, token.NoPos) {
 			o.st.inDefer--
+			if o.exited {
+				res = append(res, x.exitOutcome(o.st))
+				continue
+			}
 			if o.st.panicking == nil && !o.panicked {
 				// recovered: remaining defers run normally, then the function returns through its Recover block
 				for _, s := range x.runDefers(o.st) {
+					if s.exited {
+						res = append(res, x.exitOutcome(s.st))
+						continue
+					}
 					if s.panicked {
 						res = append(res, x.unwind(s.st)...)
 						continue
